@@ -752,6 +752,12 @@ class Interp:
             return str(recv)
         if m in ("as_bytes", "into_bytes", "into_boxed_str", "into_string", "as_mut_str") and not n["args"] and isinstance(recv, str):
             return recv         # a text and its bytes are the same token here
+        if isinstance(recv, bool) and len(n["args"]) == 1 and m in ("then", "then_some"):
+            # bool::then(f) / then_some(v): the closure runs only when true; then_some evaluates its argument either way
+            if m == "then_some":
+                v_ = self.ev(n["args"][0], env)
+                return some(v_) if recv else NONE
+            return some(self.apply(self.ev(n["args"][0], env), [])) if recv else NONE
         if m == "to_string" and not n["args"] and isinstance(recv, bool):
             return "true" if recv else "false"
         if m == "to_string" and not n["args"] and isinstance(recv, float):
